@@ -156,7 +156,9 @@ func roleOf(eds *v1.ExtendedDaemonSet, rsName string) string {
 		return "unknown"
 	case eds.Status.ActiveReplicaSet == rsName:
 		return "active"
-	case eds.Status.Canary != nil && eds.Status.Canary.ReplicaSet == rsName:
+	case eds.Status.Canary != nil && eds.Status.Canary.ReplicaSet == rsName && eds.Spec.Strategy.Canary != nil:
+		// (once the user has removed the canary strategy there is no canary to manage: the replica set
+		// named by a not yet refreshed status.canary is in no role until the next EDS reconcile)
 		return "canary"
 	}
 	return "unknown"
@@ -607,7 +609,9 @@ func (m *Monitors) onERS(inv *simapi.Invocation, out kit.Outcome) {
 			delete(m.lastAction, key) // premise "as long as its status writes succeed" broken
 		}
 	}
-	if statusWrite != nil && statusWrite.Submitted != nil && (role == "active" || role == "canary") {
+	// (a sync that stops before listing pods - parent not defaulted - re-writes the stored counters
+	// with an error condition: nothing was recomputed, nothing to judge)
+	if statusWrite != nil && statusWrite.Submitted != nil && (role == "active" || role == "canary") && v.HasPods {
 		st := statusWrite.Submitted.(*v1.ExtendedDaemonSetReplicaSet).Status
 		ctx.Count("C14.rs-status-writes-judged")
 		if !(0 <= st.Available && st.Available <= st.Ready && st.Ready <= st.Current && st.Current <= st.Desired) {
